@@ -80,8 +80,10 @@ CHECKS = {
         RUNS + "After FlowSampler.run the evidence, uncertainty and weights "
         "are recomputed from the returned samples alone, counts/order/"
         "faithfulness to the model/birth likelihoods and the agreement of "
-        "result dictionary, FlowSampler and sampler are checked. Quick 32 "
-        "runs, thorough 400.",
+        "result dictionary, FlowSampler and sampler are checked; histories "
+        "include kill/resume cycles and, for a third of the cases, a fresh "
+        "process that resumes the finished run and calls run() again. Quick "
+        "24 histories + boundary cases, thorough 400.",
         "mpmath reference for the quadrature; exact model arithmetic.",
         "DESIGN.md section 4, C05",
     ),
@@ -120,11 +122,18 @@ CHECKS = {
         "digest of the sampler at checkpoint vs after resume; independent "
         "evaluation tally",
         RUNS + "Kills are placed at generated fractions of the run inside "
-        "likelihood calls, followed by downtime and a resume in a fresh "
-        "process; the restored sampler must equal the recorded checkpoint "
-        "digest, counters/timings must continue cumulatively and the "
-        "finished run must satisfy the C01/C03/C05 invariants. Quick 24 "
-        "histories, thorough 300.",
+        "likelihood calls, at structural events (k-th population / "
+        "training) and between two iterations, followed by downtime and a "
+        "resume in a fresh process (from the resume file or through "
+        "resume_data); the restored sampler must equal the recorded "
+        "checkpoint digest, the weights file a training leaves must hold "
+        "the flow in memory, counters/timings must continue cumulatively "
+        "(sampling time bounded by construction-to-end of the processes), a "
+        "resumed process that raises is decided against the uninterrupted "
+        "run, a third of the histories resume the final checkpoint and run "
+        "again, and the finished run must satisfy the C01/C03/C05 "
+        "invariants. Quick 14 histories + 12 boundary / known cases, "
+        "thorough 300.",
         "Digest exclusions listed in vf/digest.py; kills never land inside "
         "a checkpoint write (C11 does that).",
         "DESIGN.md section 4, C12",
@@ -179,8 +188,10 @@ CHECKS = {
         "proposals; two-sample tests against brute-force prior-in-contour "
         "sampling; metamorphic rank test of marginalised densities",
         RUNS + "Every pool population and draw of every proposal class is "
-        "checked (bounds, logP/logL == model, size, index permutation, "
-        "latent contour), every likelihood argument must lie in the prior "
+        "checked (bounds against the model's own reference, logP/logL == "
+        "model for the pool and for every row handed out, size, index "
+        "permutation, latent contour, bounded number of latent draws per "
+        "population), every likelihood argument must lie in the prior "
         "support; direct-drive histories re-train and re-populate with "
         "changing contours; the distributional part compares 12000-point "
         "pools with prior-in-contour references (chi-square / KS, p < 1e-9); "
@@ -229,8 +240,9 @@ CHECKS = {
         "process signals itself just before the chosen execution; exit "
         "status, resumability and count/shadow invariants are checked, and "
         "the resumed process must continue from the iteration of the signal "
-        "(importance sampler: from its last iteration-boundary checkpoint). "
-        "Quick 48 schedules, thorough all (~1000).",
+        "(importance sampler: from its last iteration-boundary checkpoint); "
+        "a sixth of the schedules run with two FlowSampler objects created "
+        "up front. Quick 60 schedules, thorough all (~1100).",
         "Line granularity; handler runs before the target line.",
         "DESIGN.md section 4, C13",
     ),
